@@ -67,6 +67,40 @@ pub fn procedural_generator(b: &ABundle) -> Sx {
     c(l, q(b.outer_ext.clone()))
 }
 
+/// A CLVM program that *evaluates to* `x`, with some atoms produced at run time instead of quoted:
+/// empty atoms by `(substr (q . "hello") (q . 5))` (a zero-length heap atom, not the canonical nil
+/// node), longer atoms by `(concat (q . head) (q . tail))`, pairs by `(c l r)`. The value is the
+/// same; only its in-memory representation inside the interpreter differs.
+pub fn computed_program(x: &Sx, rng: &mut Rng, depth: u32) -> Sx {
+    let q = |v: Sx| Sx::pair(Sx::atom(&[1]), v);
+    match x {
+        Sx::Atom(b) => {
+            if b.is_empty() && rng.chance(1, 2) {
+                Sx::list(&[Sx::atom(&[12]), q(Sx::atom(b"hello")), q(Sx::atom(&[5]))])
+            } else if b.len() >= 2 && rng.chance(1, 3) {
+                let cut = 1 + rng.usize(b.len() - 1);
+                Sx::list(&[Sx::atom(&[14]), q(Sx::atom(&b[..cut])), q(Sx::atom(&b[cut..]))])
+            } else {
+                q(x.clone())
+            }
+        }
+        Sx::Pair(l, r) => {
+            // keep the program small: below a certain depth, or at random, quote the whole subtree
+            if depth > 9 || rng.chance(1, 5) {
+                q(x.clone())
+            } else {
+                Sx::list(&[Sx::atom(&[4]), computed_program(l, rng, depth + 1), computed_program(r, rng, depth + 1)])
+            }
+        }
+    }
+}
+
+/// the value a generator built from `b` must return: ((spend ...) . ext)
+pub fn generator_value(b: &ABundle) -> Sx {
+    let spends: Vec<Sx> = b.spends.iter().map(spend_entry).collect();
+    Sx::pair(Sx::list_term(&spends, b.spend_term.clone()), b.outer_ext.clone())
+}
+
 pub fn serialize_backrefs(x: &Sx) -> Vec<u8> {
     let mut a = Allocator::new();
     let mut rng = Rng::new(0);
